@@ -1,7 +1,7 @@
 """manifest_text.py - wording of the MANIFEST entries (what each check claims and trusts)."""
 HOOK_COMMITS = ["50cd013"]
 PENDING = "check under construction in this session (harness not yet registered); see DESIGN.md section 4 for the planned oracle"
-NOT_APPLICABLE = {p: PENDING for p in ["C05", "C07", "C14", "C16", "C17", "C18"]}
+NOT_APPLICABLE = {p: PENDING for p in ["C05", "C07", "C14", "C17", "C18"]}
 TEXT = {
  "C01": dict(
     technique="property-based testing (rapidcheck): LPs with planted primal-dual certificates x parameter combinations, exact GMP certificate oracle",
@@ -66,4 +66,8 @@ TEXT.update({
     technique="stateful property-based testing (rapidcheck): every C call mirrored on a C++ twin and on a model built from the input arrays; ASan stage",
     level_text="Sequences over all 56 SoPlex_* functions with exactly-sized heap arrays; after every call the object behind the handle, the C++ twin that received the wrapped call, and the reference model built from the input arrays must agree (LP data exact, parameters, statuses, solution arrays bitwise, returned strings parsed exactly); the asan stage detects reads/writes outside the given lengths. Exploration.",
     level_note="trusted: the C++ API as the specification of the wrappers, the reference model for the meaning of the dense arrays; leaks are observations, not violations"),
+ "C16": dict(
+    technique="property-based testing with exhaustive fault enumeration: every iteration limit 0..N, every log-line interrupt point, zero/tiny time limits, objective limits both sides, judged against the planted class and the exact certificate oracle, resume differential",
+    level_text="For each generated LP x configuration the uninterrupted solve is measured and then a fresh solver is stopped at every iteration count k = 0..N, at every line of the iteration log (interrupt flag raised from inside the solver's output stream, so the stop point is deterministic), with TIMELIMIT 0 / 1e-9 and with objective limits on both sides of the planted optimum; each stopped state is judged (status, iteration count, basis validity, certificate if a verdict is claimed) and the same object is resumed with the limit lifted and must reach the uninterrupted result. A second stage does the same for exact solves (iteration, refinement, stalling-refinement limits). Enumeration is exhaustive per case over stop points, exploration over LPs and configurations.",
+    level_note="trusted: planted class/optimum by construction, certificate oracle (certs.hpp); the interrupt is raised from the solver's own output stream (DISPLAYFREQ 1), so interrupt points are the points where the solver prints; the exact solver ignores the interrupt pointer (observation, see DESIGN.md)"),
 })
